@@ -55,7 +55,7 @@ EXPECT_PROBES = ["announced", "lost_announced", "lost_half_open",
                  "glued_to_handshake_end", "nexus_up_listener_raised",
                  "nexus_down_listener_halted", "hub_epoll",
                  "nexus_option_clear_flows_on_connect",
-                 "shutdown_with_several_datapaths"]
+                 "shutdown_with_several_datapaths", "second_nexus"]
 
 DPIDS = [0x11, 0x2200000022]
 # the two datapath ids of a run are drawn from here (cfg["dpids"]); 0 and
@@ -85,6 +85,10 @@ def gen_plan(seed, tier):
   # miss_send_len settings (what the handshake writes changes, what it waits
   # for must not)
   cfg["shutdown_at_end"] = Rng(mix(seed, "down")).chance(0.3)
+  # one of the two datapath ids is given to a second nexus by an arbiter
+  # listener (decided from the dpid the features reply announced)
+  r2n = Rng(mix(seed, "nexus2"))
+  cfg["second_nexus"] = r2n.pick([0, 1]) if r2n.chance(0.2) else None
   r5 = Rng(mix(seed, "nexus"))
   cfg["nexus"] = {}
   if r5.chance(0.3):
@@ -215,6 +219,7 @@ def _drive(sim, plan, known, hit):
     sim.epoll_hub = True
     sim.reuse_fds = True
   sim.nexus_options = cfg.get("nexus") or {}
+  second = cfg.get("second_nexus")
   world = CTLWorld(sim)
   world.boot()
   if cfg.get("up_listener_raises"):
@@ -224,6 +229,8 @@ def _drive(sim, plan, known, hit):
       sim.probes["nexus_up_listener_raised"] += 1
       raise KeyError("a ConnectionUp listener of some component fails")
     world.nexus.addListenerByName("ConnectionUp", broken, priority=-2000)
+  if second is not None:
+    world.add_second_nexus([sim.dpids[second]])
   how = cfg.get("down_listener_halts")
   if how:
     # the last ConnectionDown listener on the nexus halts the event (a legal
@@ -384,8 +391,8 @@ def _drive(sim, plan, known, hit):
     # every datapath in the registry is disconnected, with the usual
     # announcement, and the registry ends empty
     import pox.core as PC
-    reg = world.nexus.connections
-    held = [reg[d] for d in list(reg.dpids)]
+    reg = world.registry()
+    held = list(reg.values()) if isinstance(reg, dict) else []
     if len(held) >= 2:
       sim.probes["shutdown_with_several_datapaths"] += 1
     world.core.raiseEventNoErrors(PC.DownEvent())
@@ -480,8 +487,22 @@ def _check(sim, world, peers, known, hit, final=False):
     if m.live and m.announced:
       if m.dpid not in want or want[m.dpid][1].ann_seq < m.ann_seq:
         want[m.dpid] = (peer, m)
-  reg = world.nexus.connections
-  have = set(reg.dpids)
+  reg = world.registry()
+  if not isinstance(reg, dict):
+    raise Violation("registry/wrong-nexus", reg)
+  have = set(reg)
+  # every nexus-level event of a connection comes from the nexus its
+  # datapath was given to
+  for p, (peer, m) in peers.items():
+    if peer.con_id is None or not m.features:
+      continue
+    want_nx = 2 if m.dpid in world.routed else 1
+    bad = [(w, n) for w, n, c in world.nexus_events
+           if c == peer.con_id and w != want_nx]
+    if bad:
+      raise Violation("events/wrong-nexus", "peer %d (dpid %#x): %s raised "
+                      "on nexus %d, the datapath belongs to nexus %d"
+                      % (p, m.dpid, bad[0][1], bad[0][0], want_nx))
   if have != set(want):
     missing = set(want) - have
     extra = have - set(want)
@@ -522,7 +543,7 @@ def _check(sim, world, peers, known, hit, final=False):
       marks[p] = len(peer.rx_raw)
     body = b"probe%d" % di
     tag = W.enc_echo_request(0x77000000 + di, body)
-    r = world.nexus.sendToDPID(d, tag)
+    r = world.nexus_for(d).sendToDPID(d, tag)
     sim.drain()
     got = []
     for p, (peer, m) in peers.items():
